@@ -532,7 +532,8 @@ fn compute_approx_binomial_upper_bound(
     }
     if num_samples == 0 {
         let delta = num_std_dev.tail_probability();
-        let raw_ub = delta.ln() / (1.0 - theta).ln();
+        // ln_1p: for theta below 2^-53, 1.0 - theta is 1.0 and the quotient would be -inf
+        let raw_ub = delta.ln() / (-theta).ln_1p();
         return raw_ub.ceil(); // round up
     }
     if num_samples > 120 {
